@@ -51,6 +51,8 @@ def flatten(x, out=None):
     """nested sequence of numbers -> (shape signature, flat list)"""
     if out is None:
         out = []
+    if isinstance(x, np.ndarray) and x.ndim == 0:
+        x = x.item()
     if isinstance(x, (list, tuple, np.ndarray)):
         sig = tuple(flatten(v, out)[0] for v in x)
         return ("seq", sig), out
